@@ -9,5 +9,6 @@ CONSTANTS
   DevD7 = FALSE
   DevD14 = FALSE
   DevGiveUp = FALSE
+  DevRefusedGraft = FALSE
 INVARIANT Emit
 CHECK_DEADLOCK FALSE
